@@ -69,6 +69,7 @@ def run(repo, rep, tier):
     _helpers(repo, rep)
     _raise_sites(repo, rep, split_ok)
     _census(repo, rep)
+    _dynamic_python(repo, rep)
     _stamp(repo, rep)
 
 
@@ -554,6 +555,79 @@ def _census(repo, rep):
                                  "failure is an AssertionError without "
                                  "location" % sorted(hit))
     rep.count("non_template_raises_and_asserts", n)
+
+
+PARSE_EXEMPT = {
+    "wrapper": "codegen.template: the source is a string constant of the "
+               "compiler itself",
+    "parse": "astutil.parse / PythonExpr.parse: infrastructure; callers "
+             "guard it",
+    "_create_static_attributes": "parses repr() of a dict of strings: valid "
+                                 "by construction",
+    "test": "doctest helper",
+}
+
+
+def _dynamic_python(repo, rep):
+    """G-SIBLING: every site that parses template-supplied Python source
+    converts SyntaxError into a TemplateError (PythonExpr.translate does)."""
+    n = 0
+    for q, f in sorted(repo.funcs.items()):
+        if f.module.name not in COMPILE_PATH:
+            continue
+        for c in ast.walk(f.node):
+            if not isinstance(c, ast.Call):
+                continue
+            fn = src(c.func)
+            if fn not in ("template", "parse", "self.parse", "compile",
+                          "ast.parse") or not c.args:
+                continue
+            if fn == "self.parse":
+                m = repo.method(f.cls, "parse") if f.cls else None
+                if m is None or not any(
+                        isinstance(x, ast.Call) and src(x.func) in (
+                            "parse", "compile", "ast.parse")
+                        for x in ast.walk(m.node)):
+                    continue        # not a Python parser
+            a0 = c.args[0]
+            try:
+                repo.fold(a0, f.module)
+                continue            # constant source
+            except Exception:
+                pass
+            names = {x.id for x in ast.walk(a0) if isinstance(x, ast.Name)}
+            attrs = {src(x) for x in ast.walk(a0)
+                     if isinstance(x, ast.Attribute)}
+            dynamic = bool({"string", "source", "expression"} & names) or \
+                any(a.startswith("node.") for a in attrs)
+            inner = f.name
+            p = getattr(c, "_parent", None)
+            while p is not None and p is not f.node:
+                if isinstance(p, ast.FunctionDef):
+                    inner = p.name
+                p = getattr(p, "_parent", None)
+            if not dynamic or inner in PARSE_EXEMPT or f.name in PARSE_EXEMPT:
+                continue
+            n += 1
+            guarded = False
+            p = getattr(c, "_parent", None)
+            while p is not None and p is not f.node:
+                if isinstance(p, ast.Try) and any(
+                        h.type is not None and "SyntaxError" in src(h.type)
+                        and any(isinstance(x, ast.Raise) for x in h.body)
+                        for h in p.handlers) and any(
+                        c in list(ast.walk(b)) for b in p.body):
+                    guarded = True
+                p = getattr(p, "_parent", None)
+            rep.check(guarded, "R11.3", f.qualname,
+                      "%s(...) parses Python source taken from the template: "
+                      "a SyntaxError is caught and re-raised as a "
+                      "TemplateError carrying the source token" % fn,
+                      construct="unguarded-parse:" + fn,
+                      where=L.where(f, c.lineno), detail=src(c)[:80])
+    rep.check(n >= 2, "R11.3", "chameleon.*", "sites that parse "
+              "template-supplied Python were found (expressions, code "
+              "blocks)", construct="parse-sites", detail=str(n))
 
 
 def _stamp(repo, rep):
